@@ -140,6 +140,85 @@ def oracle_case(k, ops):
     return fails
 
 
+class TraceVeto:
+    """caller-supplied reset function (boolean table) that records, for every call, the sample number, the
+    category, the vigilance in force, the match value of that category and its own verdict; the wrapper's own
+    veto (validity index) appends its verdict to the same record"""
+
+    def __init__(self, kernel, tbl):
+        self.kernel, self.tbl, self.calls = kernel, tbl, []
+
+    def __call__(self, x, w, c_, params=None, cache=None):
+        k = self.kernel
+        _, cch = k.category_choice(x, w, params=k.params)
+        M, _ = k.match_criterion(x, w, params=k.params, cache=cch)
+        ok = bool(self.tbl[(7 * int(k.sample_counter_) + 3 * int(c_)) % len(self.tbl)])
+        self.calls.append({"sample": int(k.sample_counter_), "c": int(c_), "rho": float(k.params["rho"]), "M": float(M), "user": ok, "own": None})
+        return ok
+
+
+def wrapper_trace_oracle(rng):
+    """C01's match-tracking clause for the estimators that compose a caller's reset function with their own veto
+    (iCVIFuzzyART, CVIART): between two consecutive reset-function calls of one sample the vigilance in force moves
+    exactly as the mode prescribes, and every sample starts from the configured vigilance"""
+    import contextlib, io
+    import artlib
+    from artlib.cvi.iCVIFuzzyArt import iCVIFuzzyART
+    which = rng.choice(["iCVIFuzzyART", "CVIART"])
+    rho = rng.choice([0.0, 0.25, 0.5, 0.625])
+    mode = rng.choice(B.MODES)
+    eps = rng.choice([0.0, 1 / 1024, 0.0625, 0.15])
+    X = np.array([[float(v) for v in r] for r in B.grid_rows(rng, rng.randrange(4, 13), 2)], dtype=float)
+    tbl = [rng.random() < 0.6 for _ in range(11)]
+    with contextlib.redirect_stdout(io.StringIO()):
+        if which == "iCVIFuzzyART":
+            est = iCVIFuzzyART(rho=rho, alpha=1 / 1024, beta=1.0, validity=1, offline=rng.random() < 0.5)
+            kernel, own_name = est, "iCVI_match"
+        else:
+            est = artlib.CVIART(artlib.FuzzyART(rho=rho, alpha=1 / 1024, beta=1.0), validity=rng.choice([1, 2, 3]))
+            kernel, own_name = est.base_module, "CVI_match"
+    veto = TraceVeto(kernel, tbl)
+    orig = getattr(est, own_name)
+
+    def own(*a, **kw):
+        r = orig(*a, **kw)
+        if veto.calls:
+            veto.calls[-1]["own"] = bool(r)
+        return r
+    setattr(est, own_name, own)
+    rep = {"estimator": which, "rho": rho, "mode": mode, "eps": eps, "X": X.tolist(), "reset_table": tbl,
+           "how": "fit(X, match_reset_func=table[(7*sample_number+3*category) % 11], match_tracking=mode, epsilon=eps)"}
+    try:
+        with np.errstate(all="ignore"), contextlib.redirect_stdout(io.StringIO()):
+            est.fit(X, match_reset_func=veto, match_tracking=mode, epsilon=eps)
+    except Exception:
+        pass            # totality is C04's business; the calls recorded so far are still judged
+    strict = mode in ("MT0", "MT~")
+    prev = None
+    for k in veto.calls:
+        first = prev is None or prev["sample"] != k["sample"]
+        want = rho
+        if not first:
+            m = (prev["M"] > prev["rho"]) if strict else (prev["M"] >= prev["rho"])
+            ok = prev["user"] and (prev["own"] is not False)
+            want = prev["rho"]
+            if m and not ok:
+                if mode == "MT+":
+                    want = prev["M"] + eps
+                elif mode == "MT-":
+                    want = prev["M"] - eps
+                elif mode == "MT0":
+                    want = prev["M"]
+                elif mode == "MT1":
+                    return [{"signature": f"{which}/match-tracking", "text": f"MT1: the search went on after the veto of vigilance-passing category {prev['c']}", "replay": rep}]
+        if abs(k["rho"] - want) > 1e-12:
+            what = (f"sample {k['sample']}: vigilance in force is {k['rho']} at the call for category {k['c']}, the mode prescribes {want}"
+                    + ("" if not first else " (the configured value: tracking must not outlive a sample's search)"))
+            return [{"signature": f"{which}/match-tracking", "text": what, "replay": rep}]
+        prev = k
+    return []
+
+
 def nontrivial(obs):
     """>= 2 categories and at least one reset-function call or a new category after the first"""
     for r in obs:
@@ -190,6 +269,12 @@ def main():
         fails.extend(oracle_case(k, ops))
         n_any += 1
 
+    # wrappers that compose a caller's reset function with their own veto
+    rng_w = C.make_rng(seed, "C01-wrap")
+    n_wrap = 120 if tier == "quick" else 1200
+    for _ in range(n_wrap):
+        fails.extend(wrapper_trace_oracle(rng_w))
+
     def extended():
         out = []
         rng2 = C.make_rng(seed, "C01-ext")
@@ -206,7 +291,7 @@ def main():
         "rule": "random grid data (k/8, small row pools -> duplicates and exact ties), kernels Fuzzy/ART1/ART2A, rho k/8, 5 modes x eps in {0,2^-10,1/16,1/4}, "
                 "70% with a table reset function; fit or 2-3 partial_fit batches; non-trivial = distinct case reaching >= 2 categories",
         "traces_validated_against_impl": sum(1 for c in codes if c == 0),
-        "oracle_cases": n_or, "all_module_oracle_cases": n_any,
+        "oracle_cases": n_or, "all_module_oracle_cases": n_any, "wrapper_trace_cases": n_wrap,
         "distribution": stats,
         "samples": [summaries[0], summaries[1]],
     })
